@@ -4,8 +4,8 @@ bracketing loop of `Thermodynamics.findCriticalTemperature` (thermodynamics.py:1
 
 The numerical work (RK45 steps, re-minimisation, Hessian eigenvalues, free-energy values) is NOT
 modelled: it enters as the sequence of step records the integrator produced and as a sign
-function.  What is modelled is which steps end up in the table, where the table stops, the
-table (including the rule that a step of rounding size replaces the previous point), the
+function.  What is modelled is which steps end up in the table (including the rule that a step of
+rounding size replaces the previously stored point), where the table stops, the
 "possible temperature" range with its 2·dT safety margin and the genuine-disappearance flags, and
 which bracket is handed to the root finder.  Core Lean, numbers are `Rat`.
 -/
